@@ -60,6 +60,13 @@ UNIT = {
          'ensures': [('number_of_entries', 'r == self.0@.len()')]},
         {'kind': 'fn', 'src': X, 'path': 'impl FeelContext::fn is_empty', 'key': 'purity::FeelContext::is_empty', 'props': P, 'auto_props': A, 'loops': 0, 'ret': 'r', 'body_prefix': PRE,
          'ensures': [('no_entries', 'r == (self.0@.len() == 0)')]},
+        # predicates of the value API that the bodies under contract do not use today; kept so that a changed body that does still extracts
+        {'kind': 'fn', 'src': V, 'path': 'impl Value::fn is_null', 'key': 'purity::Value::is_null', 'props': P, 'auto_props': A, 'loops': 0, 'ret': 'r',
+         'ensures': [('null_test', 'r == (self is Null)')]},
+        {'kind': 'fn', 'src': V, 'path': 'impl Value::fn is_true', 'key': 'purity::Value::is_true', 'props': P, 'auto_props': A, 'loops': 0, 'ret': 'r',
+         'ensures': [('true_test', 'r == (*self == Value::Boolean(true))')]},
+        {'kind': 'fn', 'src': V, 'path': 'impl Value::fn is_number', 'key': 'purity::Value::is_number', 'props': P, 'auto_props': A, 'loops': 0, 'ret': 'r',
+         'ensures': [('number_test', 'r == (self is Number)')]},
         {'kind': 'fn', 'src': V, 'path': 'impl Values::fn new', 'key': 'purity::Values::new', 'props': P, 'auto_props': A, 'loops': 0, 'ret': 'r', 'ensures': [('holds_the_items', 'r.0 == values')]},
         {'kind': 'fn', 'src': V, 'path': 'impl Values::fn as_vec', 'key': 'purity::Values::as_vec', 'props': P, 'auto_props': A, 'loops': 0, 'ret': 'r',
          'ensures': [('view', 'r@ == self.0@')]},
@@ -71,7 +78,8 @@ UNIT = {
                      ('too_few_arguments_is_null', 'arguments@.len() < parameters@.len() ==> r is Null', ['C01', 'C16']),
                      ('parameters_bound_to_coerced_arguments_in_order', 'arguments@.len() >= parameters@.len() ==> exists |ctx: FeelContext| #[trigger] call_result(old(scope).contexts@, ctx, *body, result_type) == r '
                                                                         '&& ctx.0@ =~= bind_pos(parameters@, arguments@, parameters@.len() as int)', ['C01', 'C16'])],
-         'loop_specs': {0: {'invariant': [('scope_not_touched', 'scope.contexts@ == old(scope).contexts@'),
+         'loop_specs': {0: {'props': ['C13', 'C01', 'C16'],
+                            'invariant': [('scope_not_touched', 'scope.contexts@ == old(scope).contexts@'),
                                           ('bound_so_far', 'i <= parameters@.len() && i <= arguments@.len() && ctx.0@ =~= bind_pos(parameters@, arguments@, i as int)')],
                             'body_prefix': PRE}}},
         {'kind': 'fn', 'src': B, 'path': 'fn eval_function_named', 'key': 'purity::eval_function_named', 'props': PE, 'auto_props': AE, 'loops': 1, 'ret': 'r',
@@ -83,7 +91,8 @@ UNIT = {
                      ('missing_named_argument_is_null', '(arguments is NamedParameters && !all_named(parameters@, arguments->NamedParameters_0@)) ==> r is Null', ['C01', 'C16']),
                      ('parameters_bound_to_coerced_arguments_by_name', '(arguments is NamedParameters && all_named(parameters@, arguments->NamedParameters_0@)) ==> exists |ctx: FeelContext| '
                       '#[trigger] call_result(old(scope).contexts@, ctx, *body, result_type) == r && ctx.0@ =~= bind_named(parameters@, arguments->NamedParameters_0@, parameters@.len() as int)', ['C01', 'C16'])],
-         'loop_specs': {0: {'iter_name': 'itp', 'invariant': [('scope_not_touched', 'scope.contexts@ == old(scope).contexts@'),
+         'loop_specs': {0: {'iter_name': 'itp', 'props': ['C13', 'C01', 'C16'],
+                            'invariant': [('scope_not_touched', 'scope.contexts@ == old(scope).contexts@'),
                                           ('args', '*arguments is NamedParameters && arguments->NamedParameters_0 == *map'),
                                           ('seq', 'itp.seq() =~= parameters@.map_values(|c: (Name, FeelType)| &c)'),
                                           ('bound_so_far', 'ctx.0@ =~= bind_named(parameters@, map@, itp.index@ as int) && forall |j: int| 0 <= j < itp.index@ ==> map@.contains_key((#[trigger] parameters@[j]).0)')],
@@ -309,6 +318,11 @@ FRAME_CHECKS = {'C13': [frame_parser]}
 PARSER_PARTS = [
     {'kind': 'item', 'src': 'feel/src/ast.rs', 'path': 'enum AstNode'},
     {'kind': 'item', 'src': LX, 'path': 'enum TokenValue'},
+    {'kind': 'item', 'src': 'feel-parser/src/lalr.rs', 'path': 'enum TokenType'},
+    # the real struct, so that a function that starts to use another (or a new) field of the lexer still extracts; R8a: the scope reference becomes the one owner
+    {'kind': 'item', 'src': LX, 'path': 'struct Lexer',
+     'rewrites': [('RX', 'R8a', r"pub struct Lexer<'lexer> \{", 'pub struct Lexer {', 1), ('RX', 'R8a', r"\n  scope: &'lexer Scope,", '\n  pub scope: Scope,', 1),
+                  ('RX', 'R7', r'\n  (\w+): ', r'\n  pub \1: ', None)]},
     {'kind': 'vrs', 'file': 'purity/parser.vrs'},
     lexfn('push_to_scope', 'push'), lexfn('pop_from_scope', 'pop'), lexfn('add_name_to_scope', 'top'),
 ] + [action(n) for n in sorted(SCOPE_ACTIONS)]
@@ -327,8 +341,8 @@ NOT_DECIDED = {'C10': ['names introduced while parsing (context keys, formal par
 # fall-back for the invocation functions (also decides them when a rewritten loop leaves the extractor's reach)
 BOUNDED = {'C01': [{'name': 'function-invocation-arity', 'driver': 'feelcases', 'args': ['/verif/replay/cases/C01_invocation.txt'],
                     'functions': ['eval_function_positional', 'eval_function_named', 'eval_function_definition (feel-evaluator builders.rs)'],
-                    'bound': '42 generated calls (13 of them named / positional calls of functions with typed parameters of different types, in and out of declaration order, with arguments that need the singleton conversions): user-defined functions of arity 0..3 called positionally with 0..arity arguments and by name with every non-empty subset of the parameter names (too few / missing arguments give null, '
-                             'a complete call gives the value), typed parameters coercing or nulling the argument, and a missing parameter not captured from the caller (bounded duplicate of the Verus contracts)'}]}
+                    'bound': '51 calls (42 generated, 13 of them named / positional calls of functions with typed parameters of different types, in and out of declaration order, with arguments that need the singleton conversions): user-defined functions of arity 0..3 called positionally with 0..arity arguments and by name with every non-empty subset of the parameter names (too few / missing arguments give null, '
+                             'a complete call gives the value), typed parameters coercing or nulling the argument, a missing parameter not captured from the caller, a parameter whose argument is null or coerced to null not captured from a same-named entry of the caller, and calls with surplus arguments answering without a panic (bounded duplicate of the Verus contracts)'}]}
 
 _PURE = {'name': 'evaluation-leaves-the-scope-alone', 'driver': 'purity', 'args': ['/verif/replay/cases/C13_purity.txt'],
          'functions': ['build_context', 'build_filter', 'build_for / build_some / build_every and the iteration evaluators', 'eval_function_positional / named / definition', 'the parser actions that push and pop parsing contexts'],
